@@ -123,12 +123,14 @@ class C04(core.Prop):
                 fail('false-pass', 'assertion passed; the stated rule says the texts differ')
         if (not r['passed']) and want:
             nopat = dict(case, opts={k: v for k, v in case['opts'].items() if k != 'ignore_patterns'})
-            if case['opts'].get('ignore_patterns') and not cf.spec_agree(nopat):
-                fail('false-fail', 'assertion failed although the lines differ only in parts matched by an ignore-pattern',
-                     'false-fail:ignore-pattern')
-            elif not cf.spec_agree(case, drop_trailing_empty=True):
+            # (cause first: when the texts no longer agree once one trailing empty line is dropped before lines are removed,
+            # that - the listed finding - explains the failure, whatever else the options excuse)
+            if not cf.spec_agree(case, drop_trailing_empty=True):
                 fail('false-fail', 'fails because one trailing empty line is dropped before lines are removed / counted',
                      'false-fail:trailing-empty-line')
+            elif case['opts'].get('ignore_patterns') and not cf.spec_agree(nopat):
+                fail('false-fail', 'assertion failed although the lines differ only in parts matched by an ignore-pattern',
+                     'false-fail:ignore-pattern')
             elif not cf.spec_agree(case, perm_raw=True):
                 fail('false-fail', 'the permutation allowance compares unstripped lines although lstrip/rstrip was requested',
                      'false-fail:permutation-ignores-stripping')
